@@ -296,7 +296,13 @@ class RandomStub:
     def rand(self, *shape):
         self.P.note_stub("np.random.rand: arbitrary u with 0 <= u < 1")
         P = self.P
-        return self._draw("rand", shape if shape else None, lambda v, i: P.assume(land(v >= 0.0, v < 1.0)), finite=True)
+
+        def con(v, i):
+            P.assume(land(v >= 0.0, v < 1.0))
+            if is_sym(v) and core.ctx().profile == "fp":
+                core.ctx().unit_terms[v.e.get_id()] = v.e
+
+        return self._draw("rand", shape if shape else None, con, finite=True)
 
     def random_sample(self, size=None):
         return self.rand(*(_shape_of(size) or ()))
@@ -637,12 +643,12 @@ class CaseResult(dict):
 
 
 def explore(fn, params, profile="fp", budget_s=600.0, max_paths=200000, oblig_timeout_s=60.0, portfolio=False,
-            validate_paths=2, fmod_K=3, case_name="", known=None, stop_on_violation=True, separate=False, fmod_fork=False, argsort_mode="fork", incremental_discharge=False, abstract_mul=False):
+            validate_paths=2, fmod_K=3, case_name="", known=None, stop_on_violation=True, separate=False, fmod_fork=False, argsort_mode="fork", incremental_discharge=False, abstract_mul=False, decide_timeout_ms=20000):
     """Explore every path of harness fn(P, **params); discharge the obligations of every path.
 
     Returns a dict with paths / obligations / discharged / violations (each replayed) / inconclusive / stats."""
     t_start = time.time()
-    c = core.Ctx(profile=profile)
+    c = core.Ctx(profile=profile, decide_timeout_ms=decide_timeout_ms)
     c.fmod_K = fmod_K
     c.fmod_fork = fmod_fork
     c.argsort_mode = argsort_mode
@@ -794,7 +800,7 @@ def _validate_path(c, P, fn, params, res, timeout_s):
     """Reachability/vacuity twin + shim validation: the path condition must be satisfiable, and the real code
     run on that model (plain numpy) must reach the same obligations, satisfy them, and produce the same
     observable values as the symbolic terms evaluate to."""
-    st, model, info = solve.check(list(c.pc), timeout_s, False, P, want_z3_model=True)
+    st, model, info = solve.check(list(c.pc), min(timeout_s, 60.0), False, P, want_z3_model=True)
     res["queries"] += 1
     res["solver_s"] += info["time"]
     if st != "sat":
